@@ -183,7 +183,7 @@ def matchOpt : List String → List PRec → Nat → Except (Nat × String × St
     match ps.find? (!·.opt) with
     | some p => .error (i, "<missing>", p.e.llineC p.color)
     | none => .ok []
-  | o :: os, [], i => .error (i, o, "<missing>")
+  | o :: _, [], i => .error (i, o, "<missing>")
   | o :: os, p :: ps, i =>
     if p.e.llineC p.color == o then (matchOpt os ps (i + 1)).map (p :: ·)
     else if p.opt then matchOpt (o :: os) ps i
